@@ -221,6 +221,10 @@ type synGen struct {
 	// dstBytes[-1]; in the model). aper-dec belongs to C14, whose judge calls a decoder panic a violation — C14 is about the
 	// NGAP schema, which has no such type; the synthetic schemas of aper-dec leave it out, aper-rt decodes it (syndec).
 	decSafe bool
+	// the schema has a string with a lower bound above 0 and no upper bound: such a schema gets no string of a fragmented
+	// length (the library adds the lower bound to every fragment and slices beyond the value — a trap the model does not
+	// have; outside strOK' / fragOK and outside every NGAP type; COVERAGE.md section 3)
+	lbOnly bool
 }
 
 func (g *synGen) pick(xs ...int64) int64 { return xs[g.rng.Intn(len(xs))] }
@@ -310,7 +314,11 @@ func (g *synGen) sizeTag(forList bool) string {
 	case 1:
 		// (a value shorter than a lower bound without upper bound makes the encoder slice beyond the value: a trap, in the
 		// model since this generator found it)
-		return tagJoin(ext, "sizeLB:"+i(g.pick(0, 0, 1, 2, 3)))
+		lb := g.pick(0, 0, 1, 2, 3)
+		if lb > 0 && !forList {
+			g.lbOnly = true
+		}
+		return tagJoin(ext, "sizeLB:"+i(lb))
 	case 2:
 		n := g.pick(1, 2, 3, 8, 16, 17)
 		if forList {
@@ -529,8 +537,9 @@ func (g *synGen) openTypeSeq(depth int) string {
 }
 
 // newSynSchema: a random schema and the type / parameter string to code at the top
-func newSynSchema(rng *rand.Rand, weird, decSafe bool) (schema string, ty string, params string) {
+func newSynSchema(rng *rand.Rand, weird, decSafe bool) (schema string, ty string, params string, lbOnly bool) {
 	g := &synGen{rng: rng, weird: weird, decSafe: decSafe}
+	defer func() { lbOnly = g.lbOnly }()
 	switch rng.Intn(10) {
 	case 0, 1:
 		// a leaf wrapper: one constrained primitive
@@ -556,7 +565,7 @@ func newSynSchema(rng *rand.Rand, weird, decSafe bool) (schema string, ty string
 		ty = g.sequence(2)
 		params = g.pickS("", "valueExt")
 	}
-	return g.s.String(), ty, params
+	return g.s.String(), ty, params, false
 }
 
 // synSetRef: make the reference field of every open-type field agree with the alternative chosen (vgen.fill does this for
@@ -767,12 +776,12 @@ func aperSynEnc(e *emitter, g *vgen, roundTrip bool) {
 	}
 	for k := 0; k < nSchemas; k++ {
 		weird := !roundTrip && k%4 == 3
-		schema, ty, params := newSynSchema(e.rng, weird, false)
+		schema, ty, params, lbOnly := newSynSchema(e.rng, weird, false)
 		t := synType(schema, ty)
 		for j := 0; j < 6; j++ {
 			g.invalid = !roundTrip && j == 5
 			g.injected = ""
-			if j == 4 && k%8 == 0 {
+			if j == 4 && k%8 == 0 && !lbOnly {
 				g.longLeft = 1 // one value with a long string where the schema has a string with a general length
 			}
 			v, err := synValue(g, t, params)
@@ -799,7 +808,7 @@ func aperSynDec(e *emitter, g *vgen) {
 		nSchemas = 300 + e.n/10
 	}
 	for k := 0; k < nSchemas; k++ {
-		schema, ty, params := newSynSchema(e.rng, false, true)
+		schema, ty, params, _ := newSynSchema(e.rng, false, true)
 		t := synType(schema, ty)
 		dec := func(b []byte) { e.op("syndec", schema, ty, paramTok(params), hx(b)) }
 		for j := 0; j < 3; j++ {
